@@ -341,7 +341,7 @@ func (c *gconn) progress() (int, int, bool, bool) {
 }
 
 // settle waits (bounded) until everything sent towards a still-reading endpoint has arrived.
-func settle(eps map[string]endpoint) {
+func settle(eps map[string]endpoint) bool {
 	deadline := time.Now().Add(2 * time.Second)
 	for time.Now().Before(deadline) {
 		okAll := true
@@ -353,11 +353,17 @@ func settle(eps map[string]endpoint) {
 			}
 		}
 		if okAll {
-			return
+			return true
 		}
 		time.Sleep(time.Millisecond)
 	}
+	return false
 }
+
+// errUnsettled: a scripted pause did not see the data arrive in time (loaded machine); the rest of
+// the script would race with in-flight data (real TCP: close with unread data => RST), so the
+// behaviour is discarded instead of judged.
+var errUnsettled = fw.Event{"ev": "unsettled"}
 
 func runScript(sp scriptSpec, rec *recorder, eps map[string]endpoint, done <-chan fw.Event) fw.Event {
 	for _, o := range sp.Ops {
@@ -365,7 +371,9 @@ func runScript(sp scriptSpec, rec *recorder, eps map[string]endpoint, done <-cha
 		case "send":
 			eps[o.E].send(o.N)
 		case "settle":
-			settle(eps)
+			if !settle(eps) && sp.Kind == "tcp" {
+				return errUnsettled
+			}
 		default:
 			eps[o.E].end(o.Op)
 		}
@@ -523,6 +531,15 @@ func driveTCP(env *fw.Env, sp scriptSpec) *fw.Trace {
 	}
 	done, cleanup := startRelay(sp.Via, "tcp", ends["A"].relay, ends["B"].relay)
 	ret := runScript(sp, rec, map[string]endpoint{"A": ends["A"], "B": ends["B"]}, done)
+	if ret != nil && ret["ev"] == "unsettled" {
+		rec.seal()
+		for _, t := range ends {
+			t.peer.Close()
+			t.relay.Close()
+		}
+		cleanup()
+		return &fw.Trace{Status: fw.Inconclusive, Note: "scripted pause: data did not arrive within 2 s"}
+	}
 	if ret != nil {
 		// bytes the relay wrote before returning are in the peers' socket buffers: let the readers drain them
 		settle(map[string]endpoint{"A": ends["A"], "B": ends["B"]})
